@@ -4,10 +4,10 @@ import (
 	"bytes"
 	"encoding/json"
 	"fmt"
-	"reflect"
 	"sort"
 	"strings"
 
+	"github.com/go-openapi/spec"
 	"github.com/go-openapi/strfmt"
 	"github.com/go-openapi/validate"
 
@@ -53,9 +53,12 @@ func (p *c12) specCase(w *lib.Worker, idx int, r *lib.Rand) lib.Case {
 			c.Tags = append(c.Tags, "does-not-load")
 			return c
 		}
-		snap, _ := sut.LoadSpec(text)
 		rawBefore := append([]byte{}, doc.Raw()...)
-		specBefore, _ := json.Marshal(doc.Spec())
+		specBefore, experr := expandedJSON(doc.Spec())
+		if experr != nil {
+			c.Tags = append(c.Tags, "not-expandable")
+			return c
+		}
 		var valid bool
 		o := sut.Guard(func() sut.Outcome {
 			switch mode {
@@ -80,9 +83,9 @@ func (p *c12) specCase(w *lib.Worker, idx int, r *lib.Rand) lib.Case {
 			return c
 		}
 		if valid {
-			specAfter, _ := json.Marshal(doc.Spec())
-			if !bytes.Equal(specBefore, specAfter) || !reflect.DeepEqual(doc.Spec(), snap.Spec()) {
-				sample["spec_before"], sample["spec_after"] = string(specBefore), string(specAfter)
+			specAfter, _ := expandedJSON(doc.Spec())
+			if !bytes.Equal(specBefore, specAfter) {
+				sample["expanded_spec_before"], sample["expanded_spec_after"] = string(specBefore), string(specAfter)
 				c.Viol = &lib.Violation{What: fmt.Sprintf("validation changed the parsed specification of a document it accepts (%s, %s)", mode, what), Detail: sample}
 				return c
 			}
@@ -93,4 +96,21 @@ func (p *c12) specCase(w *lib.Worker, idx int, r *lib.Rand) lib.Case {
 		}
 	}
 	return c
+}
+
+// expandedJSON renders the FULLY EXPANDED form of a parsed specification (computed on a deep copy): the
+// property compares that form, because the reference expander rewrites $ref nodes in place by design.
+func expandedJSON(sw *spec.Swagger) ([]byte, error) {
+	b, err := json.Marshal(sw)
+	if err != nil {
+		return nil, err
+	}
+	cp := new(spec.Swagger)
+	if err := json.Unmarshal(b, cp); err != nil {
+		return nil, err
+	}
+	if err := spec.ExpandSpec(cp, &spec.ExpandOptions{RelativeBase: "", SkipSchemas: false}); err != nil {
+		return nil, err
+	}
+	return json.Marshal(cp)
 }
